@@ -25,34 +25,39 @@ EXH_RAW = 42      # the value requested in the exhaustive words (stale 10, third
 
 
 # ----------------------------------------------------------------------------- cases
-def mk_case(kind, tracking, hold, late, initial, start, events, label, via_device=False, display=None, fresh=None):
+def mk_case(kind, tracking, hold, late, initial, start, events, label, via_device=False, display=None, fresh=None, route=None):
     """kind = target id of harness/setm.py (the four base ids are the kind names).
     fresh: Parameter.set on the object fetched from device.data right before each call; otherwise on the object the
     client got before the history (a KEPT handle, across every later report); default: alternate deterministically"""
     if fresh is None:
         fresh = (len(events) + start // 125 + int(tracking)) % 3 == 0
     return dict(kind=kind, tracking=bool(tracking), hold=bool(hold), late=bool(late), initial=list(initial),
-                start=start, events=list(events), label=label, via_device=bool(via_device), display=display, fresh=bool(fresh))
+                start=start, events=list(events), label=label, via_device=bool(via_device), display=display, fresh=bool(fresh),
+                route=route)
 
 
 def parse_corpus_line(ln):
     """<target id> <tracking> <hold> <late> <value> <min> <max> <start> [d=<display as JSON>] [dev=1] [fresh=1] <event>*
-    dev=1: through Device.set(name, value, retries) (timeout 5000 only); fresh=1: object fetched right before the call"""
+    dev=1: through Device.set(name, value, retries) (timeout 5000 only); fresh=1: object fetched right before the call;
+    route=<id of setm.ROUTES>: every call of the history goes through that public route"""
     import json
     w = ln.split()
     display, via, fresh = None, False, False
     ev = w[8:]
-    while ev and "=" in ev[0] and ev[0].split("=")[0] in ("d", "dev", "fresh"):
+    route = None
+    while ev and "=" in ev[0] and ev[0].split("=")[0] in ("d", "dev", "fresh", "route"):
         k, val = ev[0].split("=", 1)
         if k == "d":
             display = json.loads(val)
+        elif k == "route":
+            route = val
         elif k == "dev":
             via = val == "1"
         else:
             fresh = val == "1"
         ev = ev[1:]
     return mk_case(w[0], w[1] == "1", w[2] == "1", w[3] == "1", (int(w[4]), int(w[5]), int(w[6])), int(w[7]), ev, "corpus",
-                   via, display, fresh)
+                   via, display, fresh, route)
 
 
 def model_line(c):
@@ -72,7 +77,7 @@ def run_impl(c):
     """-> (groups, final clock, local triple, pending_update)"""
     return setm.run_history(c["kind"], c["tracking"], c["hold"], tuple(c["initial"]), c["events"],
                             start_ms=c["start"], late=c["late"], via_device=c.get("via_device", False),
-                            display=c.get("display"), fresh=c.get("fresh", False))
+                            display=c.get("display"), fresh=c.get("fresh", False), route=c.get("route"), defer=c.get("defer", False))
 
 
 def impl_string(groups, now, loc, pending=False):
@@ -131,7 +136,7 @@ def display_table():
     """target id -> {raw: [display values whose raw value (Lean `toRaw`, the C17/C06 model) is raw]}.
     The display -> raw direction is decided by the Lean model, never by the code under test."""
     cands, lines = [], []
-    for tid in SCALED_TARGETS + ("ecomax:18",):
+    for tid in SCALED_TARGETS + ("ecomax:18", "mixer0:4", "control", "schedule:heating:s", "schedule:intake_summer:s"):
         tg = setm.target(tid)
         ds = []
         if tg.switch:
@@ -208,7 +213,7 @@ def random_case(rng, table):
         if ds:
             display = rng.choice(ds)
     retries = rng.choice([0, 1, 1, 2, 2, 3, 3, 3, 5])
-    T = rng.choice([1000, 2000, 2000, 5000])
+    T = rng.choice([1000, 2000, 2000, 5000, 5000, 700, 1200, 1500, 2500, 3000])
     ev.append(f"c:{v}:{retries}:{T}")
     third = rng.choice([x for x in range(0, 255) if x not in (v, value)])
     for _ in range(rng.randint(0, 14)):
@@ -235,8 +240,11 @@ def random_case(rng, table):
             ev.append("r:%d:%d:%d" % trip)
         if hold and rng.random() < 0.5:
             ev.append("b")
-    via_device = T == 5000 and rng.random() < 0.5     # through Device.set(name, value, retries): default timeout
-    return mk_case(tid, tracking, hold, late, initial, start, ev, "random", via_device, display)
+    via_device = T == 5000 and rng.random() < 0.3     # through Device.set(name, value, retries): default timeout
+    route = None
+    if not via_device and rng.random() < 0.7:         # any public route that can express (v, retries, T) on this parameter
+        route = rng.choice(setm.routes_for(tg, v, retries, T))
+    return mk_case(tid, tracking, hold, late, initial, start, ev, "random", via_device, display, route=route)
 
 
 def lifetime_case(rng, table):
@@ -299,8 +307,92 @@ def lifetime_case(rng, table):
                 ev.append("b")
     for _ in range(rng.randint(0, 8)):
         ev.append(rng.choice(["t", "t", "b" if hold else "t", "w:125", "r:%d:%d:%d" % (rng.choice(values), lo, hi)]))
+    route = None
+    if not via_device and rng.random() < 0.6:
+        route = rng.choice(LIFETIME_ROUTES + (LIFETIME_ROUTES_DEFAULT_T if T == 5000 else ()))
     return mk_case(tid, tracking, hold, late, (v0, lo, hi), rng.choice([0, 0, 1000]), ev, "lifetime", via_device,
-                   displays if any(d is not None for d in displays) else None)
+                   displays if any(d is not None for d in displays) else None, route=route)
+
+
+LIFETIME_ROUTES = ("P.set/pos", "P.set/wk", "P.set_nowait/kw", "P.set_nowait/pos", "P.set_nowait/wk")
+LIFETIME_ROUTES_DEFAULT_T = ("D.set/pos", "D.set/kw", "D.set_nowait/rk", "D.set_nowait/pos", "D.set_nowait/wk", "P.set_nowait/r", "P.set/rk")
+
+
+# one representative per concrete parameter class (and the scaled / 2-byte / second sub-device / control / profile rows)
+ROUTE_TARGETS = ("ecomax", "ecomax:88", "ecomax:18", "mixer", "mixer1:5", "mixer0:4", "thermostat", "thermostat1:1", "schedule",
+                 "schedule:heating:s", "schedule:intake_summer:s", "schedule:water_heater_2:p", "profile", "control")
+DEFER_TARGETS = ("ecomax", "ecomax:88", "ecomax:18", "schedule", "schedule:heating:s", "schedule:water_heater_2:p", "profile")
+
+
+def deferred_cases(table):
+    """Device.set / set_nowait by name BEFORE the parameter exists (no device-level wait limit): the call waits for the
+    first report, then the set machine runs on the reported triple (differs / equals the requested value / excludes it)"""
+    n = 0
+    for tid in DEFER_TARGETS:
+        tg = setm.target(tid)
+        raw, other, lo, hi = (1, 0, 0, 1) if tg.switch else (42, 10, 0, 100)
+        for route in ("D.set/rk", "D.set/r", "D.set/0", "D.set_nowait/rk", "D.set_nowait/r", "D.set_nowait/0"):
+            for r in (1, 2, 5):
+                if not setm.route_admits(route, tg, raw, r, 5000):
+                    continue
+                n += 1
+                display = None
+                if tid in table:
+                    ds = table[tid][raw]
+                    display = ds[n % len(ds)]
+                firsts = [(other, lo, hi), (raw, lo, hi)] + ([] if tg.switch else [(other, lo, 30)])
+                for k, first in enumerate(firsts):
+                    ev = [f"c:{raw}:{r}:5000"] + ["w:125"] * (1 + (n + k) % 3) + ["r:%d:%d:%d" % first]
+                    ev += (["t"] * (r + 1)) if (n + k) % 2 else ["w:250", f"r:{raw}:{first[1]}:{first[2]}", "t"]
+                    yield mk_case(tid, (n + k) % 2 == 0, False, (n + k) % 3 == 0, (0, 0, 0), [0, 1000][n % 2], ev, "route-deferred", False,
+                                  display, fresh=False, route=route) | dict(defer=True)
+
+
+ROUTE_RT = ((1, 1200), (3, 700), (2, 3000), (4, 1500), (2, 5000), (3, 5000), (1, 5000), (5, 1200), (5, 700), (5, 5000), (0, 1200))
+
+
+def route_cases(table, tier):
+    """every public set route x every concrete parameter class x attempts/interval pairs that are non-default and
+    numerically different from each other x three histories (request lost throughout; stale report then
+    confirmation; confirmation at once).  What the machine must do for the (retries, timeout) the CALLER passed
+    comes from the Lean machine alone."""
+    n = 0
+    for tid in ROUTE_TARGETS:
+        tg = setm.target(tid)
+        if tg.switch:
+            initial, raw, stale = (0, 0, 1), 1, 0
+        else:
+            initial, raw, stale = (10, 0, 100), 42, 10
+        for flip in ((False, True) if tg.switch else (False,)):
+            if flip:
+                initial, raw, stale = (1, 0, 1), 0, 1
+            for route in setm.ROUTES:
+                for r, T in ROUTE_RT:
+                    if not setm.route_admits(route, tg, raw, r, T):
+                        continue
+                    n += 1
+                    if tier == "quick" and setm.ROUTES[route][2] in ("wk", "rk") and n % 2:
+                        continue
+                    display = None
+                    if tid in table and setm.ROUTES[route][2] not in ("on", "off"):
+                        ds = table[tid][raw]
+                        display = ds[n % len(ds)]
+                    elif tg.switch:
+                        display = (["on", True, 1] if raw else ["off", False, 0])[n % 3]
+                    lo, hi = initial[1], initial[2]
+                    hists = [[f"c:{raw}:{r}:{T}"] + ["t"] * (r + 1),
+                             [f"c:{raw}:{r}:{T}", "w:125", f"r:{raw}:{lo}:{hi}", "t"]]
+                    if tg.kind == "control":     # behind on_change: a report of the unchanged state never reaches the switch
+                        hists.append([f"c:{raw}:{r}:{T}", "t", "w:125", f"r:{raw}:{lo}:{hi}", "t", f"r:{stale}:{lo}:{hi}"])
+                    else:
+                        hists.append([f"c:{raw}:{r}:{T}", "w:125", f"r:{stale}:{lo}:{hi}", "t", "w:250", f"r:{raw}:{lo}:{hi}", "t"])
+                    for k, ev in enumerate(hists):
+                        tracking = (n + k) % 2 == 0
+                        hold = k == 0 and n % 5 == 0
+                        if hold:
+                            ev = [x for e in ev for x in ((e, "b") if e != "b" else (e,))]
+                        yield mk_case(tid, tracking, hold, (n + k) % 3 == 0, initial, [0, 1000][n % 2], ev, "route-sweep", False,
+                                      display, fresh=(n + k) % 4 == 0, route=route)
 
 
 LIFE_LETTERS = {
@@ -350,6 +442,8 @@ def sweep_cases(table, tier):
     """every display value of the table once: set(display) must transmit toRaw(display)"""
     for tid in sorted(table):
         tg = setm.target(tid)
+        if tg.kind in ("control", "schedule"):       # range fixed to 0..1 by the decoder: the route sweep has them
+            continue
         n = 0
         for raw in sorted(table[tid]):
             for d in table[tid][raw]:
@@ -389,7 +483,8 @@ def explore_config(args):
     """all words of the given length over the alphabet, in lexicographic order, skipping words that
     only differ after set() has returned (they share the prefix up to the return).
     -> list of (case, impl string, groups)"""
-    kind, tracking, hold, retries, length, alphabet, display = args
+    kind, tracking, hold, retries, length, alphabet, display, *rest = args
+    route = rest[0] if rest else None
     out = []
     counter = [0]
 
@@ -410,7 +505,7 @@ def explore_config(args):
         if len(prefix) == length:
             late = counter[0] % 2 == 1
             counter[0] += 1
-            c = mk_case(kind, tracking, hold, late, (10, 0, 100), 0, expand(prefix, retries), "exhaustive", False, display)
+            c = mk_case(kind, tracking, hold, late, (10, 0, 100), 0, expand(prefix, retries), "exhaustive", False, display, route=route)
             c["word"] = prefix
             groups, now, loc, pend = run_impl(c)
             out.append((c, impl_string(groups, now, loc, pend), groups))
@@ -423,6 +518,9 @@ def explore_config(args):
 
     rec("")
     return out
+
+
+EXH_ROUTES = ("P.set_nowait/pos", "P.set/pos", "P.set_nowait/kw", "P.set_nowait/wk")    # forms that can carry timeout T_EXH
 
 
 def exhaustive_configs(tier, table):
@@ -438,11 +536,11 @@ def exhaustive_configs(tier, table):
                 for retries in range(4):
                     cfgs.append((tid, tracking, False, retries, EXH_LEN, "SCXT", None))
                     cfgs.append((tid, tracking, True, retries, EXH_LEN_HOLD, "SCXTB", None))
-        for tid in variety:      # other addresses / scaled rows, called with the display value
+        for tid in variety:      # other addresses / scaled rows, called with the display value, through the other routes
             for tracking in (False, True):
                 for retries in range(4):
-                    cfgs.append((tid, tracking, False, retries, EXH_LEN - 1, "SCXT", disp(tid)))
-                    cfgs.append((tid, tracking, True, retries, EXH_LEN_HOLD - 1, "SCXTB", disp(tid)))
+                    cfgs.append((tid, tracking, False, retries, EXH_LEN - 1, "SCXT", disp(tid), EXH_ROUTES[(retries + tracking) % 4]))
+                    cfgs.append((tid, tracking, True, retries, EXH_LEN_HOLD - 1, "SCXTB", disp(tid), EXH_ROUTES[(retries + tracking + 2) % 4]))
         for tid in ("ecomax", "mixer1:0"):   # tracking switched on at every position of the history
             for retries in range(4):
                 cfgs.append((tid, False, False, retries, EXH_LEN - 1, "SCXTK", None))
@@ -454,8 +552,9 @@ def exhaustive_configs(tier, table):
                     cfgs.append((tid, tracking, False, retries, 4, "SCXT", None))
         for retries in range(4):
             cfgs.append(("ecomax", False, True, retries, 4, "SCXTB", None))
-            cfgs.append(("ecomax:88", retries % 2 == 0, False, retries, 4, "SCXT", disp("ecomax:88")))
-            cfgs.append(("schedule:mixer_10:p", retries % 2 == 1, False, retries, 4, "SCXT", None))
+            cfgs.append(("ecomax:88", retries % 2 == 0, False, retries, 4, "SCXT", disp("ecomax:88"), EXH_ROUTES[retries]))
+            cfgs.append(("schedule:mixer_10:p", retries % 2 == 1, False, retries, 4, "SCXT", None, EXH_ROUTES[(retries + 1) % 4]))
+            cfgs.append(("mixer1:5", retries % 2 == 0, False, retries, 4, "SCXT", disp("mixer1:5"), EXH_ROUTES[(retries + 2) % 4]))
             cfgs.append(("ecomax", False, False, retries, 4, "SCXTK", None))
             cfgs.append(("thermostat1:1", False, True, retries, 3, "SCXTBK", disp("thermostat1:1")))
     return cfgs
@@ -499,7 +598,7 @@ def check_cases(res, triples):
             res.count("tracking switched on during the run")
         res.count("tracking:%d hold:%d" % (c["tracking"], c["hold"]))
         res.count("late:%d" % c["late"])
-        res.count("entry:" + ("Device.set" if c.get("via_device") else "Parameter.set"))
+        res.count("entry:" + ("Device.set" if c.get("via_device") else "route " + c["route"].split("/")[0] if c.get("route") else "Parameter.set"))
         res.count("label:" + c["label"])
         res.count("outcome:" + outcome_of(groups))
         res.count("set requests:%d" % ntx)
@@ -510,6 +609,15 @@ def check_cases(res, triples):
         inp["via_device"] = c.get("via_device", False)
         inp["display"] = c.get("display")
         inp["fresh"] = c.get("fresh", False)
+        inp["route"] = c.get("route")
+        if c.get("deferred"):
+            inp["deferred"] = c["deferred"]
+            res.count("Device.set called before the parameter's first report")
+        if c.get("route"):
+            res.count("route:" + c["route"])
+            res.count("route x class:" + c["route"].split("/")[0] + " on " + setm.target(c["kind"]).kind + (" switch" if setm.target(c["kind"]).switch else " number"))
+            if call and (call[0].split(":")[2] != "5" or call[0].split(":")[3] != "5000") and int(call[0].split(":")[2]) * 1000 != int(call[0].split(":")[3]):
+                res.count("route called with non-default attempts/interval that differ numerically")
         res.count("handle:" + ("Device.set (by name)" if c.get("via_device") else "fetched before the call" if c.get("fresh") else "kept across reports"))
         bad_x = [o for g in groups for o in g if o[0] == "X"]
         if bad_x:
@@ -548,6 +656,8 @@ def run(ctx):
     cases = [random_case(rng, table) for _ in range(n)]
     cases.extend(lifetime_case(rng, table) for _ in range(1500 if tier == "quick" else 30000))
     cases.extend(sweep_cases(table, tier))
+    cases.extend(route_cases(table, tier))
+    cases.extend(deferred_cases(table))
     lcfgs = lifetime_words(tier)
     cfgs = exhaustive_configs(tier, table)
     workers = min(8, os.cpu_count() or 1) if tier == "thorough" else min(4, os.cpu_count() or 1)
@@ -584,6 +694,16 @@ def _run_one(c):
         g, now, loc, pend = run_impl(c)
     except setm.Tie:
         return None
+    if c.get("defer"):
+        # Device.set(name, ...) was called BEFORE the parameter's first report: the call waits for the parameter and the set
+        # machine starts when that report arrives.  Judged as: the machine started on the reported triple at that instant.
+        ev = c["events"]
+        k = next(i for i, e in enumerate(ev) if e.startswith("r:"))
+        assert ev[0].startswith("c:") and all(e.startswith("w:") for e in ev[1:k]), ev
+        shift = sum(int(e[2:]) for e in ev[1:k])
+        c = dict(c, events=[ev[0]] + ev[k + 1:], initial=[int(x) for x in ev[k].split(":")[1:]], start=c["start"] + shift, defer=False,
+                 deferred=dict(events=list(ev), initial=list(c["initial"]), start=c["start"]))
+        g = [[o for grp in g[:k + 1] for o in grp]] + g[k + 1:]
     return (c, impl_string(g, now, loc, pend), g)
 
 
@@ -591,6 +711,8 @@ def replay(ctx):
     rp = ctx["replay"]
     f = rp.get("failure") or rp.get("first_difference")
     c = dict(f["input"])
+    if c.get("deferred"):
+        c = dict(c, defer=True, **c.pop("deferred"))
     res = Result("C08")
     res.rule = "replay of one recorded history"
     t = _run_one(c)
